@@ -44,6 +44,9 @@ pub fn cases(args: &[String]) {
     let mut index = 0u64;
     let mut writer_env: Env = Vec::new();
     let mut reader_env: Env = Vec::new();
+    // a declaration whose metadata cannot be built (AdtMetadata::new panics): with the derive macro the metadata
+    // is built lazily inside the first encode / decode of the type, so every case under that declaration panics
+    let mut env_panic: Option<String> = None;
     for line in std::io::BufReader::new(f).lines() {
         let line = line.unwrap();
         let line = line.trim();
@@ -57,13 +60,27 @@ pub fn cases(args: &[String]) {
         let sx = parse_all(rest);
         let res: Result<String, String> = match cmd {
             "E" => {
-                writer_env = parse_env(&sx[0]);
-                set_env(writer_env.clone());
+                env_panic = None;
+                let sx0 = sx[0].clone();
+                match guarded(std::panic::AssertUnwindSafe(move || parse_env(&sx0))) {
+                    Ok(e) => {
+                        writer_env = e;
+                        set_env(writer_env.clone());
+                    }
+                    Err(p) => env_panic = Some(p),
+                }
                 Ok("env".to_string())
             }
+            _ if env_panic.is_some() && cmd != "E2" => Err(env_panic.clone().unwrap()),
+            // a case the watchdog cut short in an earlier run of this file (see gen/common.py)
+            "hang" => Ok("hang".to_string()),
             "E2" => {
                 // the reading definition for `xrt`
-                reader_env = parse_env(&sx[0]);
+                let sx0 = sx[0].clone();
+                match guarded(std::panic::AssertUnwindSafe(move || parse_env(&sx0))) {
+                    Ok(e) => reader_env = e,
+                    Err(p) => env_panic = Some(p),
+                }
                 Ok("env".to_string())
             }
             "xrt" => {
